@@ -1,6 +1,6 @@
 (* C15: proofs about the reload / request transition system of model/Snapshot.v. *)
 From Coq Require Import List ZArith Bool Lia.
-From Bfe Require Import lib.Val model.Snapshot.
+From Bfe Require Import lib.Val lib.ValProofs model.Snapshot run.RunC15.
 Import ListNotations.
 Open Scope Z_scope.
 
@@ -345,3 +345,475 @@ Lemma baltable_example :
   let st := exec (mkState (init_shared 1 1) [new_greload 2; new_request]) [0;0;0;1;1;1;1;1;0;0;1]%nat in
   nth_error (threads st) 1 = Some (TReq (mkRequest 5 (Some 1) [1;1;1] (Some 2) false)).
 Proof. reflexivity. Qed.
+
+(* ---------------------------------------------------------------- the model satisfies prop_C15 (sequential ops) *)
+Definition Q (v g tr gb ss : Z) : shared := mkShared v false g false false tr gb ss.
+
+Lemma nth_error_last {A} (ts : list A) t : nth_error (ts ++ [t]) (length ts) = Some t.
+Proof. induction ts; simpl; auto. Qed.
+Lemma upd_nth_last {A} (ts : list A) t t' : upd_nth (ts ++ [t]) (length ts) t' = ts ++ [t'].
+Proof. induction ts; simpl; auto. rewrite IHts. reflexivity. Qed.
+
+Lemma step_last s ts t :
+  step (mkState s (ts ++ [t])) (length ts) = mkState (fst (step_thread s t)) (ts ++ [snd (step_thread s t)]).
+Proof.
+  unfold step. simpl. rewrite nth_error_last. destruct (step_thread s t) as [s' t']. simpl. rewrite upd_nth_last. reflexivity.
+Qed.
+
+Lemma reload_run_ok ts v0 g tr gb ss v :
+  run_thread 10 (mkState (Q v0 g tr gb ss) (ts ++ [new_reload v true])) (length ts)
+  = mkState (Q v g v v v) (ts ++ [TReload (mkReload v true 7)]).
+Proof. unfold run_thread, new_reload, Q. repeat (rewrite step_last; simpl). reflexivity. Qed.
+
+Lemma reload_run_bad ts v0 g tr gb ss v :
+  run_thread 10 (mkState (Q v0 g tr gb ss) (ts ++ [new_reload v false])) (length ts)
+  = mkState (Q v0 g tr gb ss) (ts ++ [TReload (mkReload v false 7)]).
+Proof. unfold run_thread, new_reload, Q. repeat (rewrite step_last; simpl). reflexivity. Qed.
+
+Lemma greload_run ts v0 g tr gb ss g' :
+  run_thread 10 (mkState (Q v0 g tr gb ss) (ts ++ [new_greload g'])) (length ts)
+  = mkState (Q v0 g' tr v0 v0) (ts ++ [TGslb (mkGReload g' 8 v0)]).
+Proof. unfold run_thread, new_greload, Q. repeat (rewrite step_last; simpl). reflexivity. Qed.
+
+(* requests: the pure iteration behind run_req_to *)
+Fixpoint iter_req (fuel : nat) (s : shared) (q : request) (target : nat) {struct fuel} : request :=
+  match fuel with
+  | O => q
+  | S f => if (target <=? rq_pc q)%nat then q else iter_req f s (step_request s q) target
+  end.
+
+Lemma upd_nth_same {A} : forall (ts : list A) i t, nth_error ts i = Some t -> upd_nth ts i t = ts.
+Proof. induction ts as [|y ts IH]; intros [|i] t H; simpl in *; try discriminate; [inversion H; auto|rewrite IH; auto]. Qed.
+Lemma upd_nth_twice {A} : forall (ts : list A) i a b, upd_nth (upd_nth ts i a) i b = upd_nth ts i b.
+Proof. induction ts as [|y ts IH]; intros [|i] a b; simpl; auto. rewrite IH. reflexivity. Qed.
+
+Lemma step_req_quiet s ts i q :
+  nth_error ts i = Some (TReq q) -> step (mkState s ts) i = mkState s (upd_nth ts i (TReq (step_request s q))).
+Proof. intros H. unfold step. simpl. rewrite H. simpl. reflexivity. Qed.
+
+Lemma run_req_to_spec : forall fuel s ts i q target,
+  nth_error ts i = Some (TReq q) ->
+  run_req_to fuel (mkState s ts) i target = mkState s (upd_nth ts i (TReq (iter_req fuel s q target))).
+Proof.
+  induction fuel as [|f IH]; intros s ts i q target H; simpl.
+  - rewrite upd_nth_same; auto.
+  - unfold req_at. simpl. rewrite H. destruct (target <=? rq_pc q)%nat.
+    + rewrite upd_nth_same; auto.
+    + rewrite (step_req_quiet s ts i q H).
+      rewrite (IH s _ i (step_request s q) target) by (eapply nth_error_upd_nth_eq; eauto).
+      rewrite upd_nth_twice. reflexivity.
+Qed.
+
+(* canonical form of a request that has snapshot e, is at program counter pc and (if it has looked the balancer up) holds go *)
+Definition creq (e : Z) (go : option Z) (pc : nat) : request :=
+  mkRequest pc (Some e) (repeat e (Nat.min (Nat.pred pc) 3)) go false.
+
+Definition hp_ok (hp : Z) : Prop := hp = 0 \/ hp = 1 \/ hp = 2 \/ hp = 3 \/ hp = 4.
+
+Lemma iter_fresh v g tr gb ss hp : hp_ok hp ->
+  iter_req 8 (Q v g tr gb ss) (mkRequest 0 None [] None false) (target_pc hp)
+  = creq v (if (hp =? 0) || (hp =? 4) then Some g else None) (target_pc hp).
+Proof. intros [->|[->|[->|[->| ->]]]]; reflexivity. Qed.
+
+Lemma iter_cont v g tr gb ss e go hp0 hp : (hp0 = 1 \/ hp0 = 2 \/ hp0 = 3 \/ hp0 = 4) -> hp_ok hp -> (hp = 0 \/ hp0 < hp) ->
+  iter_req 8 (Q v g tr gb ss) (creq e go (target_pc hp0)) (target_pc hp)
+  = creq e (if (hp0 <? 4) && ((hp =? 0) || (hp =? 4)) then Some g else go) (target_pc hp).
+Proof.
+  intros [->|[->|[->| ->]]] [->|[->|[->|[->| ->]]]] [H|H]; try lia; try discriminate; reflexivity.
+Qed.
+
+Lemma view_check e go hp curg gprev :
+  hp_ok hp ->
+  (go = if (hp =? 0) || (hp =? 4) then Some (if gprev =? 0 then curg else gprev) else None) ->
+  (hp = 0 \/ hp = 4 -> (if gprev =? 0 then curg else gprev) <> 0) ->
+  check_view e curg gprev hp (view_of (creq e go (target_pc hp)))
+  = Some (if (hp =? 0) || (hp =? 4) then (if gprev =? 0 then curg else gprev) else 0).
+Proof.
+  intros Hhp -> Hnz. unfold check_view, view_of, creq.
+  destruct Hhp as [->|[->|[->|[->| ->]]]]; simpl; rewrite ?Z.eqb_refl; simpl; try reflexivity.
+  - destruct (gprev =? 0) eqn:E; simpl; rewrite ?Z.eqb_refl; reflexivity.
+  - destruct (gprev =? 0) eqn:E; simpl; rewrite ?Z.eqb_refl; reflexivity.
+Qed.
+Definition op_wf (o : hop) : Prop :=
+  match o with
+  | HGslb g => g <> 0
+  | HStart _ hp | HCont _ hp => hp_ok hp
+  | HBurst _ _ _ _ _ => False
+  | _ => True
+  end.
+
+Definition slot_ok (h : hstate) (p : pstate) (rid : nat) : Prop :=
+  match h_slot h rid, p_exp p rid with
+  | None, None => True
+  | Some i, Some e =>
+    let hp := h_hp h rid in
+    (hp = 1 \/ hp = 2 \/ hp = 3 \/ hp = 4) /\ p_php p rid = hp /\
+    (hp = 4 -> p_g p rid <> 0) /\ (hp <> 4 -> p_g p rid = 0) /\
+    nth_error (threads (h_st h)) i = Some (TReq (creq e (if hp =? 4 then Some (p_g p rid) else None) (target_pc hp)))
+  | _, _ => False
+  end.
+
+Definition R (h : hstate) (p : pstate) : Prop :=
+  (exists tr gb ss, sh (h_st h) = Q (p_cur p) (p_gen p) tr gb ss) /\
+  p_gen p <> 0 /\
+  (forall rid, slot_ok h p rid) /\
+  (forall r1 r2 i, h_slot h r1 = Some i -> h_slot h r2 = Some i -> r1 = r2).
+
+Lemma R_init : R h_init p_init.
+Proof.
+  unfold R, h_init, p_init, slot_ok; simpl. repeat split; try discriminate.
+  exists 1, 1, 1. reflexivity.
+Qed.
+
+Lemma nth_error_app_old {A} (ts : list A) x i t : nth_error ts i = Some t -> nth_error (ts ++ [x]) i = Some t.
+Proof. intros H. rewrite nth_error_app1; auto. apply nth_error_Some. congruence. Qed.
+
+(* appending a finished thread and changing the shared state does not disturb the held requests *)
+Lemma slots_append s ts slot hpf x s' p p' :
+  p_exp p' = p_exp p -> p_g p' = p_g p -> p_php p' = p_php p ->
+  (forall rid, slot_ok (mkH (mkState s ts) slot hpf) p rid) ->
+  (forall rid, slot_ok (mkH (mkState s' (ts ++ [x])) slot hpf) p' rid).
+Proof.
+  intros E1 E2 E3 H rid. specialize (H rid). unfold slot_ok in *. simpl in *. rewrite E1, E2, E3.
+  destruct (slot rid) as [i|]; destruct (p_exp p rid) as [e|]; auto.
+  destruct H as (A & B & C & D & E). repeat split; auto. apply nth_error_app_old. exact E.
+Qed.
+
+Lemma exec_op_sound h p o hv' :
+  R h p -> op_wf o -> exec_op h o = Some hv' ->
+  exists p', prop_op p o (snd hv') = Some p' /\ R (fst hv') p'.
+Proof.
+  intros (HQ & Hg & Hs & Hd) Hwf Hex.
+  destruct h as [[s ts] slot hpf]. simpl in HQ. destruct HQ as (tr & gb & ss & ->). simpl in Hd.
+  destruct o as [v|v|g|rid hp|rid hp| |a b c d e]; simpl in Hwf; try contradiction.
+  - (* reload *)
+    cbn [exec_op add_thread h_st h_slot h_hp threads sh] in Hex. rewrite reload_run_ok in Hex. inversion Hex; subst hv'; clear Hex. simpl.
+    eexists. split; [rewrite Z.eqb_refl; reflexivity|]. unfold R; simpl. repeat split; auto.
+    + exists v, v, v. reflexivity.
+    + apply (slots_append (Q (p_cur p) (p_gen p) tr gb ss) ts slot hpf _ _ p _); auto.
+  - (* failing reload *)
+    cbn [exec_op add_thread h_st h_slot h_hp threads sh] in Hex. rewrite reload_run_bad in Hex. inversion Hex; subst hv'; clear Hex. simpl.
+    eexists. split; [rewrite Z.eqb_refl; reflexivity|]. unfold R; simpl. repeat split; auto.
+    + exists tr, gb, ss. reflexivity.
+    + apply (slots_append (Q (p_cur p) (p_gen p) tr gb ss) ts slot hpf _ _ p _); auto.
+  - (* gslb reload *)
+    cbn [exec_op add_thread h_st h_slot h_hp threads sh] in Hex. rewrite greload_run in Hex. inversion Hex; subst hv'; clear Hex. simpl.
+    eexists. split; [reflexivity|]. unfold R; simpl. repeat split; auto.
+    + exists tr, (p_cur p), (p_cur p). reflexivity.
+    + apply (slots_append (Q (p_cur p) (p_gen p) tr gb ss) ts slot hpf _ _ p _); auto.
+  - (* start *)
+    cbn [exec_op add_thread h_st h_slot h_hp threads sh] in Hex. pose proof (Hs rid) as Hr. unfold slot_ok in Hr. simpl in Hr.
+    destruct (slot rid) as [i0|] eqn:Es; [discriminate|].
+    destruct (p_exp p rid) as [e0|] eqn:Ee; [contradiction|].
+    unfold advance in Hex. cbn [h_st h_slot h_hp] in Hex.
+    rewrite (run_req_to_spec 8 _ (ts ++ [new_request]) (length ts) (mkRequest 0 None [] None false)) in Hex
+      by apply nth_error_last.
+    rewrite upd_nth_last, iter_fresh in Hex by exact Hwf.
+    unfold req_at in Hex. simpl in Hex. rewrite nth_error_last in Hex. simpl in Hex.
+    rewrite Nat.eqb_refl in Hex. cbn [negb] in Hex. inversion Hex; subst hv'; clear Hex. cbn [fst snd prop_op].
+    eexists. split.
+    { rewrite Ee. rewrite (view_check (p_cur p) (if (hp =? 0) || (hp =? 4) then Some (p_gen p) else None) hp (p_gen p) 0 Hwf); [reflexivity | reflexivity | intros _; exact Hg]. }
+    unfold R; simpl. repeat split; auto.
+    + exists tr, gb, ss. reflexivity.
+    + intros r. unfold slot_ok; cbn [h_slot h_hp h_st threads p_exp p_g p_php].
+      pose proof (Hs r) as Hr'; unfold slot_ok in Hr'; cbn [h_slot h_hp h_st threads] in Hr'.
+      destruct (hp =? 0) eqn:E0; unfold upd; cbn beta; destruct (Nat.eqb r rid) eqn:Er.
+      * exact I.
+      * destruct (slot r) as [i|]; destruct (p_exp p r) as [e|]; auto.
+        destruct Hr' as (A & B & C & D & E); repeat split; auto; apply nth_error_app_old; exact E.
+      * assert (hp = 1 \/ hp = 2 \/ hp = 3 \/ hp = 4) as H14.
+        { destruct Hwf as [->|H]; [discriminate|exact H]. }
+        repeat split; auto.
+        -- intros ->. simpl. exact Hg.
+        -- intros Hn. destruct H14 as [->|[->|[->| ->]]]; simpl; auto. congruence.
+        -- rewrite nth_error_last. destruct H14 as [->|[->|[->| ->]]]; reflexivity.
+      * destruct (slot r) as [i|]; destruct (p_exp p r) as [e|]; auto.
+        destruct Hr' as (A & B & C & D & E); repeat split; auto; apply nth_error_app_old; exact E.
+    + intros r1 r2 i. cbn [h_slot]. destruct (hp =? 0); unfold upd; cbn beta.
+      * destruct (Nat.eqb r1 rid) eqn:E1; [discriminate|]. destruct (Nat.eqb r2 rid) eqn:E2; [discriminate|]. apply Hd.
+      * destruct (Nat.eqb r1 rid) eqn:E1; destruct (Nat.eqb r2 rid) eqn:E2; intros H1 H2.
+        -- apply Nat.eqb_eq in E1, E2. congruence.
+        -- exfalso. inversion H1; subst i. pose proof (Hs r2) as Hr'. unfold slot_ok in Hr'. simpl in Hr'.
+           rewrite H2 in Hr'. destruct (p_exp p r2); [|contradiction]. destruct Hr' as (_ & _ & _ & _ & E).
+           apply nth_error_Some_lt in E || (assert (nth_error ts (length ts) <> None) as K by congruence;
+                                            apply nth_error_Some in K; lia).
+        -- exfalso. inversion H2; subst i. pose proof (Hs r1) as Hr'. unfold slot_ok in Hr'. simpl in Hr'.
+           rewrite H1 in Hr'. destruct (p_exp p r1); [|contradiction]. destruct Hr' as (_ & _ & _ & _ & E).
+           assert (nth_error ts (length ts) <> None) as K by congruence. apply nth_error_Some in K. lia.
+        -- exact (Hd r1 r2 i H1 H2).
+  - (* continue *)
+    cbn [exec_op add_thread h_st h_slot h_hp threads sh] in Hex. pose proof (Hs rid) as Hr. unfold slot_ok in Hr. simpl in Hr.
+    destruct (slot rid) as [i|] eqn:Es; [|discriminate].
+    destruct (p_exp p rid) as [e|] eqn:Ee; [|contradiction].
+    destruct Hr as (H14 & Hphp & Hg4 & Hgn & Hnth).
+    destruct ((hp =? 0) || (hpf rid <? hp)) eqn:Ecnd; [|discriminate].
+    unfold advance in Hex. cbn [h_st h_slot h_hp] in Hex.
+    rewrite (run_req_to_spec 8 _ ts i _ (target_pc hp) Hnth) in Hex.
+    assert (Hlt : hp = 0 \/ hpf rid < hp).
+    { apply orb_true_iff in Ecnd. destruct Ecnd as [E|E]; [left; apply Z.eqb_eq; exact E|right; apply Z.ltb_lt; exact E]. }
+    rewrite (iter_cont _ _ _ _ _ e _ (hpf rid) hp H14 Hwf Hlt) in Hex.
+    unfold req_at in Hex. simpl in Hex. rewrite (nth_error_upd_nth_eq ts i _ _ Hnth) in Hex. simpl in Hex.
+    rewrite Nat.eqb_refl in Hex. cbn [negb] in Hex. inversion Hex; subst hv'; clear Hex. cbn [fst snd prop_op].
+    set (gprev := p_g p rid) in *.
+    assert (Hgo : (if (hpf rid <? 4) && ((hp =? 0) || (hp =? 4)) then Some (p_gen p)
+                   else if hpf rid =? 4 then Some gprev else None)
+                  = (if (hp =? 0) || (hp =? 4) then Some (if gprev =? 0 then p_gen p else gprev) else None)).
+    { destruct H14 as [E|[E|[E|E]]]; rewrite E in *; simpl;
+        try (rewrite (Hgn ltac:(lia)); simpl; destruct ((hp =? 0) || (hp =? 4)); reflexivity).
+      assert (hp = 0) as -> by (unfold hp_ok in Hwf; lia). simpl. specialize (Hg4 eq_refl). apply Z.eqb_neq in Hg4. rewrite Hg4. reflexivity. }
+    rewrite Hgo.
+    eexists. split.
+    { rewrite Ee, Hphp, Ecnd. fold gprev. rewrite (view_check e _ hp (p_gen p) gprev Hwf eq_refl); [reflexivity|].
+      intros _. destruct (gprev =? 0) eqn:E; [exact Hg|apply Z.eqb_neq; exact E]. }
+    unfold R; simpl. repeat split; auto.
+    + exists tr, gb, ss. reflexivity.
+    + intros r. unfold slot_ok; cbn [h_slot h_hp h_st threads p_exp p_g p_php].
+      pose proof (Hs r) as Hr'; unfold slot_ok in Hr'; cbn [h_slot h_hp h_st threads] in Hr'.
+      assert (Hne : forall i', (r =? rid)%nat = false -> slot r = Some i' -> i' <> i).
+      { intros i' Er Hi' ->. assert (r = rid) by (eapply Hd; eauto). subst r. rewrite Nat.eqb_refl in Er. discriminate. }
+      destruct (hp =? 0) eqn:E0; unfold upd; cbn beta; destruct (Nat.eqb r rid) eqn:Er.
+      * exact I.
+      * destruct (slot r) as [i'|] eqn:Er'; destruct (p_exp p r) as [e'|]; auto.
+        destruct Hr' as (A & B & C & D & E); repeat split; auto.
+        rewrite nth_error_upd_nth_neq; [exact E|]. intros K. apply (Hne i' eq_refl eq_refl). auto.
+      * assert (hp = 1 \/ hp = 2 \/ hp = 3 \/ hp = 4) as H14'.
+        { destruct Hwf as [->|H]; [discriminate|exact H]. }
+        assert (Hlt' : hpf rid < hp) by (destruct Hlt as [->|]; [discriminate|auto]).
+        assert (Hg0 : gprev = 0) by (apply Hgn; lia).
+        repeat split; auto.
+        -- intros ->. simpl. rewrite Hg0. simpl. exact Hg.
+        -- intros Hn. destruct H14' as [->|[->|[->| ->]]]; simpl; auto. congruence.
+        -- rewrite (nth_error_upd_nth_eq ts i _ _ Hnth). rewrite Hg0.
+           destruct H14' as [->|[->|[->| ->]]]; reflexivity.
+      * destruct (slot r) as [i'|] eqn:Er'; destruct (p_exp p r) as [e'|]; auto.
+        destruct Hr' as (A & B & C & D & E); repeat split; auto.
+        rewrite nth_error_upd_nth_neq; [exact E|]. intros K. apply (Hne i' eq_refl eq_refl). auto.
+    + intros r1 r2 i'. cbn [h_slot]. destruct (hp =? 0); unfold upd; cbn beta.
+      * destruct (Nat.eqb r1 rid) eqn:E1; [discriminate|]. destruct (Nat.eqb r2 rid) eqn:E2; [discriminate|]. apply Hd.
+      * destruct (Nat.eqb r1 rid) eqn:E1; destruct (Nat.eqb r2 rid) eqn:E2; intros H1 H2.
+        -- apply Nat.eqb_eq in E1, E2. congruence.
+        -- apply Nat.eqb_eq in E1. subst r1. inversion H1; subst i'. exact (Hd rid r2 i Es H2).
+        -- apply Nat.eqb_eq in E2. subst r2. inversion H2; subst i'. exact (Hd r1 rid i H1 Es).
+        -- exact (Hd r1 r2 i' H1 H2).
+  - (* one more request on the keep-alive connection: a fresh request thread run to completion *)
+    cbn [exec_op add_thread h_st h_slot h_hp threads sh] in Hex.
+    rewrite (run_req_to_spec 8 _ (ts ++ [new_request]) (length ts) (mkRequest 0 None [] None false)) in Hex
+      by apply nth_error_last.
+    rewrite upd_nth_last in Hex.
+    replace (iter_req 8 (Q (p_cur p) (p_gen p) tr gb ss) (mkRequest 0 None [] None false) 6)
+      with (creq (p_cur p) (Some (p_gen p)) 6) in Hex by reflexivity.
+    unfold req_at in Hex. simpl in Hex. rewrite nth_error_last in Hex. simpl in Hex.
+    inversion Hex; subst hv'; clear Hex. cbn [fst snd prop_op].
+    eexists. split.
+    { pose proof (view_check (p_cur p) (Some (p_gen p)) 0 (p_gen p) 0 (or_introl eq_refl) eq_refl (fun _ => Hg)) as V.
+      change (target_pc 0) with 6%nat in V. simpl in V. unfold creq in *. simpl in *. rewrite V. reflexivity. }
+    unfold R; simpl. repeat split; auto.
+    + exists tr, gb, ss. reflexivity.
+    + apply (slots_append (Q (p_cur p) (p_gen p) tr gb ss) ts slot hpf _ _ p _); auto.
+Qed.
+
+Definition is_burst (o : hop) : bool := match o with HBurst _ _ _ _ _ => true | _ => false end.
+
+Lemma decode_op_wf v o : decode_op v = Some o -> is_burst o = false -> op_wf o.
+Proof.
+  intros H Hb. unfold decode_op in H.
+  repeat match type of H with
+         | match ?x with _ => _ end = _ => destruct x eqn:?; try discriminate
+         end;
+    unfold in_range, NV, NG in *;
+    repeat match type of H with
+           | (if ?c then _ else _) = _ => destruct c eqn:?; try discriminate
+           end;
+    inversion H; subst; simpl in *; try discriminate; auto;
+    repeat match goal with
+           | H : _ && _ = true |- _ => apply andb_true_iff in H; destruct H
+           | H : (_ <=? _) = true |- _ => apply Z.leb_le in H
+           end; unfold hp_ok; lia.
+Qed.
+
+Lemma all_some_Forall {A B} (f : A -> option B) (P : B -> Prop) :
+  (forall a b, f a = Some b -> P b) -> forall l r, all_some (map f l) = Some r -> Forall P r.
+Proof.
+  intros Hf. induction l as [|a l IH]; intros r H; simpl in H.
+  - inversion H. constructor.
+  - destruct (f a) eqn:E; [|discriminate]. destruct (all_some (map f l)) eqn:E2; [|discriminate].
+    inversion H; subst. constructor; eauto.
+Qed.
+
+Lemma exec_ops_sound : forall ops h p l,
+  R h p -> Forall op_wf ops -> exec_ops h ops = Some l -> prop_ops p ops l = true.
+Proof.
+  induction ops as [|o r IH]; intros h p l HR Hwf Hex; simpl in Hex.
+  - inversion Hex. reflexivity.
+  - inversion Hwf as [|? ? Ho Hr]; subst.
+    destruct (exec_op h o) as [[h' v]|] eqn:E; [|discriminate].
+    destruct (exec_ops h' r) as [l'|] eqn:E2; [|discriminate].
+    inversion Hex; subst l. simpl.
+    destruct (exec_op_sound h p o (h', v) HR Ho E) as [p' [Hp HR']]. simpl in Hp, HR'.
+    rewrite Hp. eapply IH; eauto.
+Qed.
+
+(* The model satisfies the property predicate on every input without a concurrent-burst op: whatever sequence of
+   reloads (good or failing), gslb reloads and request starts / continuations through the hold points is executed, every
+   view the model produces shows the version that was installed when that request started. *)
+Theorem prop_C15_of_model_partial : forall i ops,
+  decode_C15 i = Some ops -> forallb (fun o => negb (is_burst o)) ops = true ->
+  prop_C15 i (run_C15 i) = true.
+Proof.
+  intros i ops Hd Hnb. unfold prop_C15, run_C15. rewrite Hd.
+  destruct (exec_ops h_init ops) as [l|] eqn:E.
+  - rewrite (exec_ops_sound ops h_init p_init l R_init); auto.
+    unfold decode_C15 in Hd. destruct i as [| |vs]; try discriminate.
+    destruct (length vs <=? 14)%nat; [|discriminate].
+    rewrite forallb_forall in Hnb.
+    assert (Forall (fun o => In o ops -> op_wf o) ops) as K.
+    { eapply (all_some_Forall decode_op (fun o => In o ops -> op_wf o)); [|exact Hd].
+      intros a b Hab Hin. eapply decode_op_wf; eauto. specialize (Hnb b Hin). destruct (is_burst b); auto; discriminate. }
+    rewrite Forall_forall in *. intros o Ho. apply K; auto.
+  - unfold VErr. simpl. rewrite orb_true_r. reflexivity.
+Qed.
+
+Lemma prop_example :
+  let i := VL [VL [VZ 3; VZ 0; VZ 1]; VL [VZ 1; VZ 2]; VL [VZ 4; VZ 0; VZ 2]; VL [VZ 6; VZ 3]; VL [VZ 2; VZ 2]; VL [VZ 4; VZ 0; VZ 0]] in
+  (exists ops, decode_C15 i = Some ops /\ forallb (fun o => negb (is_burst o)) ops = true) /\
+  run_C15 i = VL [VL [VZ 1; VZ 0; VZ 0; VZ 0; VZ 0; VZ 0; VZ 0]; VL [VZ 0; VZ 2]; VL [VZ 1; VZ 1; VZ 0; VZ 0; VZ 0; VZ 0; VZ 0];
+                  VL [VZ 1; VZ 2]; VL [VZ 0]; VL [VZ 1; VZ 1; VZ 1; VZ 1; VZ 1; VZ 2; VZ 200]].
+Proof. split; [eexists; split; [vm_compute; reflexivity|reflexivity]|vm_compute; reflexivity]. Qed.
+
+(* ---------------------------------------------------------------- the follow-up steps of a reload *)
+(* A reload that runs alone from a quiet state leaves transports, GslbBasic and slow-start parameters at its version. *)
+Lemma reload_converges ts v0 g tr gb ss v :
+  sh (run_thread 10 (mkState (Q v0 g tr gb ss) (ts ++ [new_reload v true])) (length ts)) = Q v g v v v.
+Proof. rewrite reload_run_ok. reflexivity. Qed.
+
+(* Two OVERLAPPING reloads can leave the balancers with the GslbBasic / slow-start parameters of the OLDER configuration
+   although srv.ServerConf is the newer one (each reload pushes its own newServerConf.ClusterTable, in its own time):
+   all threads have finished, conf = 3 but transports = gslb_basic = slow_start = 2.  This does not contradict C15_single_snapshot - route lookups go through the request's snapshot -
+   it concerns the balancer-level parameters, which are shared state outside the snapshot. *)
+Lemma overlapping_reloads_stale :
+  exists sched,
+    let st := exec (mkState (init_shared 1 1) [new_reload 2 true; new_reload 3 true]) sched in
+    threads st = [TReload (mkReload 2 true 7); TReload (mkReload 3 true 7)] /\
+    conf (sh st) = 3 /\ transports (sh st) = 2 /\ gslb_basic (sh st) = 2 /\ slow_start (sh st) = 2.
+Proof. exists [0;0;0;0;1;1;1;1;1;1;1;0;0;0]%nat. vm_compute. repeat split; reflexivity. Qed.
+
+(* ---------------------------------------------------------------- only completely loaded configurations are ever seen *)
+Definition installed (v0 : Z) (ts : list thread) (x : Z) : Prop :=
+  x = v0 \/ exists i r, nth_error ts i = Some (TReload r) /\ rl_ver r = x /\ rl_ok r = true.
+
+Definition inst_inv (v0 : Z) (st : state) : Prop :=
+  installed v0 (threads st) (conf (sh st)) /\
+  (forall i r, nth_error (threads st) i = Some (TReload r) -> (1 <= rl_pc r <= 6)%nat -> rl_ok r = true) /\
+  (forall i q x, nth_error (threads st) i = Some (TReq q) -> rq_snap q = Some x -> installed v0 (threads st) x).
+
+Lemma installed_step v0 st j x : installed v0 (threads st) x -> installed v0 (threads (step st j)) x.
+Proof.
+  intros [->|(i & r & Hn & Hv & Ho)]; [left; reflexivity|right].
+  destruct (kind_reload_stable i [j] st r Hn) as (r' & Hn' & Hv' & Ho').
+  exists i, r'. unfold exec in Hn'. simpl in Hn'. repeat split; congruence.
+Qed.
+
+Lemma step_reload_wf s r s' r' :
+  step_reload s r = (s', r') -> ((1 <= rl_pc r <= 6)%nat -> rl_ok r = true) -> ((1 <= rl_pc r' <= 6)%nat -> rl_ok r' = true).
+Proof.
+  unfold step_reload. intros E H.
+  destruct (rl_pc r) as [|[|[|[|[|[|[|n]]]]]]] eqn:Epc;
+    try destruct (rl_ok r) eqn:Eok; try destruct (conf_w s); try destruct (bal_w s);
+    inversion E; subst; simpl; intros; auto; try lia; try (apply H; lia); try (rewrite Epc; lia).
+Qed.
+
+Lemma step_reload_conf s r s' r' :
+  step_reload s r = (s', r') -> conf s' = conf s \/ (rl_pc r = 2%nat /\ conf s' = rl_ver r).
+Proof.
+  unfold step_reload. intros E.
+  destruct (rl_pc r) as [|[|[|[|[|[|[|n]]]]]]] eqn:Epc;
+    try destruct (rl_ok r); try destruct (conf_w s); try destruct (bal_w s);
+    inversion E; subst; simpl; auto.
+Qed.
+
+Lemma step_greload_conf s g s' g' : step_greload s g = (s', g') -> conf s' = conf s.
+Proof.
+  unfold step_greload. intros E.
+  destruct (gl_pc g) as [|[|[|[|[|[|[|[|n]]]]]]]]; try destruct (conf_w s); try destruct (bal_w s);
+    inversion E; subst; simpl; auto.
+Qed.
+
+Lemma inst_inv_step v0 st j : inst_inv v0 st -> inst_inv v0 (step st j).
+Proof.
+  intros (Hc & Hw & Hq).
+  assert (Hconf : installed v0 (threads (step st j)) (conf (sh (step st j)))).
+  { unfold step at 2. destruct (nth_error (threads st) j) as [t|] eqn:Hj; [|rewrite step_sh_other; auto].
+    destruct t as [r|g|q]; simpl.
+    - destruct (step_reload (sh st) r) as [s' r'] eqn:E. simpl.
+      destruct (step_reload_conf _ _ _ _ E) as [Ec|[Epc Ec]]; rewrite Ec.
+      + apply installed_step. exact Hc.
+      + right. destruct (kind_reload_stable j [j] st r Hj) as (r2 & Hn2 & Hv2 & Ho2).
+        unfold exec in Hn2. simpl in Hn2. exists j, r2. repeat split; auto.
+        rewrite Ho2. eapply Hw; eauto. lia.
+    - destruct (step_greload (sh st) g) as [s' g'] eqn:E. simpl.
+      rewrite (step_greload_conf _ _ _ _ E). apply installed_step. exact Hc.
+    - apply installed_step. exact Hc. }
+  split; [exact Hconf|]. split.
+  - intros i r' Hn Hpc.
+    assert (exists t, nth_error (threads st) i = Some t) as [t Ht].
+    { destruct (nth_error (threads st) i) eqn:E; eauto.
+      assert (nth_error (threads (step st j)) i <> None) as K by congruence.
+      apply nth_error_Some in K. rewrite step_length in K. apply nth_error_None in E. lia. }
+    destruct (step_shape st j i t Ht) as (t' & Hn' & [->|(-> & -> & _)]); rewrite Hn' in Hn; inversion Hn; subst.
+    + eapply Hw; eauto.
+    + destruct t as [r|g|q]; simpl in *; try (destruct (step_greload (sh st) g)); try discriminate.
+      destruct (step_reload (sh st) r) as [s' r2] eqn:E. simpl in *. inversion H0; subst.
+      eapply step_reload_wf; eauto.
+  - intros i q' x Hn Hs.
+    assert (exists t, nth_error (threads st) i = Some t) as [t Ht].
+    { destruct (nth_error (threads st) i) eqn:E; eauto.
+      assert (nth_error (threads (step st j)) i <> None) as K by congruence.
+      apply nth_error_Some in K. rewrite step_length in K. apply nth_error_None in E. lia. }
+    destruct (step_shape st j i t Ht) as (t' & Hn' & [->|(-> & -> & _)]); rewrite Hn' in Hn; inversion Hn; subst.
+    + apply installed_step. eapply Hq; eauto.
+    + destruct t as [r|g|q]; simpl in *;
+        try (destruct (step_reload (sh st) r)); try (destruct (step_greload (sh st) g)); try discriminate.
+      inversion H0; subst. clear H0.
+      unfold step_request in Hs.
+      destruct (rq_pc q) as [|[|[|[|[|[|n]]]]]]; simpl in Hs;
+        try (destruct (conf_w (sh st))); try (destruct (bal_w (sh st))); simpl in Hs;
+        try (apply installed_step; eapply Hq; eauto; fail).
+      all: inversion Hs; subst; apply installed_step; exact Hc.
+Qed.
+
+Lemma inst_inv_exec v0 sched : forall st, inst_inv v0 st -> inst_inv v0 (exec st sched).
+Proof.
+  induction sched as [|j r IH]; intros st H; [exact H|].
+  unfold exec in *. simpl. apply IH. apply inst_inv_step. exact H.
+Qed.
+
+(* A request never holds a configuration whose load failed or has not completed: its snapshot is the initial
+   configuration or the version of a reload thread whose LoadServerDataConf succeeded. *)
+Theorem snapshot_installed :
+  forall (v g : Z) (ts : list thread) (sched : list nat),
+    Forall fresh_thread ts ->
+    forall i q x, nth_error (threads (exec (mkState (init_shared v g) ts) sched)) i = Some (TReq q) ->
+    rq_snap q = Some x ->
+    x = v \/ exists k r, nth_error ts k = Some (TReload r) /\ rl_ver r = x /\ rl_ok r = true.
+Proof.
+  intros v g ts sched Hf i q x Hn Hs.
+  assert (I0 : inst_inv v (mkState (init_shared v g) ts)).
+  { unfold inst_inv; simpl. split; [left; reflexivity|]. split.
+    - intros k r Hk Hpc. rewrite Forall_forall in Hf. pose proof (Hf _ (nth_error_In _ _ Hk)) as F. simpl in F. lia.
+    - intros k q0 x0 Hk Hx. rewrite Forall_forall in Hf. pose proof (Hf _ (nth_error_In _ _ Hk)) as F. simpl in F.
+      subst q0. discriminate. }
+  destruct (inst_inv_exec v sched _ I0) as (_ & _ & H).
+  destruct (H i q x Hn Hs) as [->|(k & r & Hk & Hv & Ho)]; [left; reflexivity|right].
+  (* the reload thread at index k was there from the start, with the same version and load result *)
+  assert (exists t, nth_error ts k = Some t) as [t Ht].
+  { destruct (nth_error ts k) eqn:E; eauto.
+    assert (nth_error (threads (exec (mkState (init_shared v g) ts) sched)) k <> None) as K by congruence.
+    apply nth_error_Some in K. rewrite exec_length in K. apply nth_error_None in E. simpl in K. lia. }
+  destruct t as [r0|g0|q0].
+  - destruct (kind_reload_stable k sched (mkState (init_shared v g) ts) r0 Ht) as (r1 & H1 & H2 & H3).
+    rewrite H1 in Hk. inversion Hk; subst r1. exists k, r0. repeat split; congruence.
+  - destruct (kind_gslb_stable k sched (mkState (init_shared v g) ts) g0 Ht) as (g1 & H1). congruence.
+  - assert (req_inv q0).
+    { rewrite Forall_forall in Hf. apply fresh_req_inv. apply Hf. eapply nth_error_In; eauto. }
+    destruct (exec_req_at (mkState (init_shared v g) ts) sched k q0 Ht H0) as (q1 & H1 & _). congruence.
+Qed.
